@@ -257,6 +257,10 @@ func execWriterRun(run *writerRun, data []byte) ([]tr.Ev, []byte) {
 		doWrite(min(10, len(data)))
 		doGetWritten()
 	}
+	if e != nil || failed || written < len(data) {
+		// no stream was reported complete: nothing to compare with the streams of other runs
+		return evs, nil
+	}
 	return evs, sink.Data
 }
 
@@ -740,6 +744,9 @@ func enumC08(n int, seed int64, thorough bool) []func() []wcaseT {
 			base.Parts = pick(rnd, [][]int{nil, {100000}, {65536}, {30000, 77777}})
 			data := gen.Make(base.Shape, base.Seed, size)
 			// fault-free run to count the sink calls
+			// every run of the group that ends with a successful Close of all the data must have produced the bytes of the
+			// fault-free run (C04: "every run"): the fault-free run comes first and defines the digest of the key
+			base.Key = fmt.Sprintf("c08g%d|%s|%s|%d", g, base.W.Transform, base.W.Entropy, base.Size)
 			probe := *base
 			probe.Run = g * 1000
 			_, _ = execWriterRun(&probe, data)
@@ -753,6 +760,8 @@ func enumC08(n int, seed int64, thorough bool) []func() []wcaseT {
 			w.Close()
 			calls := len(sink.Calls)
 			var out []wcaseT
+			pr := probe
+			out = append(out, wcaseT{&pr, data})
 			id := 0
 			for k := 1; k <= calls; k++ {
 				for _, variant := range []string{"once", "forever", "once-partial"} {
